@@ -47,7 +47,8 @@ Record InvO (s : st) : Prop := {
         (forall t, In t (v_tabs v) -> t < next s) /\
         (hasman s = true ->
            v_prev v = None /\ (forall t, In t (v_tabs v) <-> tget (tb s) t = Some CTab) /\
-           sjnum s = v_jnum v /\ (forall t c, tget (tb s) t = Some c -> t <> v_man v)) }.
+           sjnum s = v_jnum v /\ (forall t c, tget (tb s) t = Some c -> t <> v_man v) /\
+           In (FManifest, v_man v) (files s)) }.
 
 Lemma InvO_InvC : forall s, InvO s -> InvC s.
 Proof.
@@ -60,7 +61,7 @@ Lemma do_rm_InvO : forall f ok why s, InvO s -> (needed s f = false \/ f = (FJou
 Proof.
   intros f ok why s H Hn.
   pose proof (do_rm_files_NoDup f ok why s (o_fl s H)) as Hfl.
-  destruct (do_rm_eq f ok why s) as (E1&E2&E3&E4&E5&E6&E7&E8&E9&E10&E11&E12&E13&E14&E15&E16&E17&E18&E19&_).
+  destruct (do_rm_eq f ok why s) as (E1&E2&E3&E4&E5&E6&E7&E8&E9&E10&E11&E12&E13&E14&E15&E16&E17&E18&E19&E20).
   constructor; auto.
   - rewrite E2. apply H.
   - rewrite E2, E1. apply H.
@@ -73,15 +74,21 @@ Proof.
   - rewrite E13, E14, E15. apply H.
   - rewrite E19. apply IT_cons; auto. apply H.
   - rewrite E17. apply H.
-  - rewrite E8, E4, E1, E5, E2, E7. apply H.
+  - rewrite E8, E4, E1, E5, E2, E7. destruct (o_v s H) as [v (Ev&Em&Lm&W&Lt&Hh)]. exists v.
+    split; auto. split; auto. split; auto. split; auto. split; auto.
+    intros Hm. destruct (Hh Hm) as (P1&P2&P3&P4&P5). split; auto. split; auto. split; auto. split; auto.
+    destruct E20 as [E20|E20]; rewrite E20; auto. apply fdel_In. split; auto.
+    intros Ef. destruct Hn as [Hn|Hn]; [|subst f; discriminate].
+    subst f. unfold needed in Hn. cbn in Hn. rewrite Ev in Hn. cbn in Hn. rewrite N.eqb_refl in Hn. discriminate.
 Qed.
 
 Lemma rj_flush_InvO : forall n s, InvO s ->
   InvO (rj_flush n s) /\ next s <= next (rj_flush n s) /\ hasman (rj_flush n s) = hasman s /\
-  journal (rj_flush n s) = journal s /\ man (rj_flush n s) = man s /\ views (rj_flush n s) = views s.
+  journal (rj_flush n s) = journal s /\ man (rj_flush n s) = man s /\ views (rj_flush n s) = views s /\
+  (forall m, In (FJournal, m) (files (rj_flush n s)) <-> In (FJournal, m) (files s)).
 Proof.
   induction n as [|n IH]; intros s H.
-  - unfold rj_flush. split; [exact H | split; [lia | repeat split; reflexivity]].
+  - unfold rj_flush. split; [exact H | split; [lia | repeat split; auto]].
   - unfold rj_flush. fold rj_flush. set (t := next s).
     set (s1 := set_tb (tset (tb s) t (COut KFlush))
                  (set_residue (filter (fun x => negb (fd_eqb (FTable, t) (fst x))) (residue s))
@@ -98,13 +105,15 @@ Proof.
         + intros Hc. destruct (o_cls s H u c Hc). split; auto. unfold t. lia.
       - exists v. split; auto. split; auto. split; [unfold t; lia|]. split; auto.
         split; [intros u Hu; specialize (Lt u Hu); unfold t; lia|].
-        intros Hm. destruct (Hh Hm) as (P1&P2&P3&P4). split; auto. split; [|split; auto].
+        intros Hm. destruct (Hh Hm) as (P1&P2&P3&P4&P5). split; auto. split; [|split; [auto|split]].
         + intros u. rewrite tget_tset, P2. destruct (N.eqb_spec t u) as [ <- |]; [|tauto].
           split; [|discriminate]. intros Hu. rewrite Hfresh in Hu. discriminate.
         + intros u c. rewrite tget_tset. destruct (N.eqb_spec t u) as [ <- |]; [|apply P4].
-          intros _. unfold t. lia. }
-    destruct (IH s1 H1) as (I1&I2&I3&I4&I5&I6). split; auto.
-    subst s1. cbn in *. split; [unfold t in *; lia | repeat split; auto].
+          intros _. unfold t. lia.
+        + apply fadd_In. right. auto. }
+    destruct (IH s1 H1) as (I1&I2&I3&I4&I5&I6&I7). split; auto.
+    subst s1. cbn in *. split; [unfold t in *; lia | split; [auto | split; [auto | split; [auto | split; [auto|]]]]].
+    intros m. rewrite I7, fadd_In. split; [intros [E|Hin]; [discriminate | auto] | auto].
 Qed.
 
 (* the commits of recoverJournal: a record that sets the journal number and adds the tables flushed
@@ -113,7 +122,8 @@ Lemma commit_open : forall j rmok s, InvO s ->
   let s' := fst (commit (Some KFlush) [] (Some j) false COk rmok s) in
   InvO s' /\ hasman s' = true /\ (exists v, views s' = [v] /\ v_jnum v = j) /\
   (forall t, tget (tb s') t <> Some (COut KFlush)) /\ next s <= next s' /\ journal s' = journal s /\
-  (forall t c, tget (tb s') t = Some c -> exists c0, tget (tb s) t = Some c0).
+  (forall t c, tget (tb s') t = Some c -> exists c0, tget (tb s) t = Some c0) /\
+  (forall m, In (FJournal, m) (files s') <-> In (FJournal, m) (files s)).
 Proof.
   intros j rmok s H. unfold commit. rewrite (o_mf s H). rewrite !orb_false_r.
   destruct (o_v s H) as [v0 (Ev0&Em0&Lm0&W0&Lt0&Hh0)].
@@ -129,7 +139,7 @@ Proof.
       congruence. }
   destruct (hasman s) eqn:Ehm; cbn [negb].
   - (* flushManifest *)
-    destruct (Hh0 eq_refl) as (P1&P2&P3&P4).
+    destruct (Hh0 eq_refl) as (P1&P2&P3&P4&P5).
     rewrite Ev0. cbn [hd fst].
     set (r := apply_rec v0 (outs_of (Some KFlush) s) [] (Some j) (next s)).
     destruct (install_fields (Some KFlush) [] (Some j) s) as (F1&F2&F3&F4&F5&F6&F7&F8&F9&F10&F11&F12&F13&F14).
@@ -142,7 +152,7 @@ Proof.
       rewrite Htab, P2. cbn. split.
       - intros [[Ht _]|Ht]; [left; auto | right; exists KFlush; auto].
       - intros [[Ht _]|[k [E Ht]]]; [left; auto | right; inversion E; subst; auto]. }
-    split; [|split; [|split; [|split; [|split; [|split]]]]]; cbn.
+    split; [|split; [|split; [|split; [|split; [|split; [|split]]]]]]; cbn.
     + constructor; cbn; try (rewrite ?F1, ?F2, ?F3, ?F6, ?F9, ?F10, ?F11, ?F12, ?F13; apply H).
       * rewrite Hkeys. apply (o_k s H).
       * intros t c Hc. destruct (Hnew t Hcl c Hc) as [-> [c0 Hc0]]. split; auto. rewrite F2. apply (o_cls s H t c0 Hc0).
@@ -153,14 +163,16 @@ Proof.
         { intros t Ht. apply Hr_tabs in Ht. destruct (Hnew t Hcl _ Ht) as [_ [c0 Hc0]]. apply (o_cls s H t c0 Hc0). }
         split.
         { intros t Ht. apply Hr_tabs in Ht. destruct (Hnew t Hcl _ Ht) as [_ [c0 Hc0]]. apply (o_cls s H t c0 Hc0). }
-        intros _. split; auto. split; auto. split; auto.
-        intros t c Hc. destruct (Hnew t Hcl c Hc) as [_ [c0 Hc0]]. apply (P4 t c0 Hc0).
+        intros _. split; auto. split; auto. split; auto. split.
+        { intros t c Hc. destruct (Hnew t Hcl c Hc) as [_ [c0 Hc0]]. apply (P4 t c0 Hc0). }
+        rewrite F1. auto.
     + rewrite F5. auto.
     + exists r. split; auto.
     + intros t Hc. destruct (Hnew t Hcl _ Hc) as [E _]. discriminate.
     + rewrite F2. lia.
     + auto.
     + intros t c Hc. apply (Hnew t Hcl c Hc).
+    + intros m. rewrite F1. tauto.
   - (* newManifest *)
     set (m := next s).
     set (s1 := set_next (m + 1) s).
@@ -175,16 +187,16 @@ Proof.
     rewrite Em0.
     assert (Hn : needed s3 (FManifest, v_man v0) = false).
     { unfold needed. cbn. rewrite orb_false_r. apply N.eqb_neq. unfold m. lia. }
-    destruct (do_rm_eq (FManifest, v_man v0) rmok RFailed s3) as (E1&E2&E3&E4&E5&E6&E7&E8&E9&E10&E11&E12&E13&E14&E15&E16&E17&E18&E19&_).
+    destruct (do_rm_eq (FManifest, v_man v0) rmok RFailed s3) as (E1&E2&E3&E4&E5&E6&E7&E8&E9&E10&E11&E12&E13&E14&E15&E16&E17&E18&E19&E20).
     assert (Hfl3 : NoDup (files s3)) by (subst s3; cbn; apply fadd_NoDup; rewrite F1; apply (o_fl s H)).
     pose proof (do_rm_files_NoDup (FManifest, v_man v0) rmok RFailed s3 Hfl3) as Hfl4.
     remember (fst (do_rm (FManifest, v_man v0) rmok RFailed s3)) as s4 eqn:Es4.
-    subst s3. cbn in E1, E2, E3, E4, E5, E6, E7, E8, E9, E10, E11, E12, E13, E14, E15, E16, E17, E18, E19.
+    subst s3. cbn in E1, E2, E3, E4, E5, E6, E7, E8, E9, E10, E11, E12, E13, E14, E15, E16, E17, E18, E19, E20.
     assert (K2 : NoDup (map fst (tb s2))) by (rewrite Hkeys; apply (o_k s H)).
     assert (Hv_tab : forall t, In t (v_tabs v) <-> tget (tb s2) t = Some CTab) by (intros; apply tabs_of_In; auto).
     assert (Hlt2 : forall t c, tget (tb s2) t = Some c -> t < m).
     { intros t c Hc. destruct (Hnew t Hcl c Hc) as [_ [c0 Hc0]]. apply (o_cls s H t c0 Hc0). }
-    split; [|split; [|split; [|split; [|split; [|split]]]]]; cbn.
+    split; [|split; [|split; [|split; [|split; [|split; [|split]]]]]]; cbn.
     + constructor; cbn.
       * auto.
       * rewrite E2. auto.
@@ -201,14 +213,19 @@ Proof.
       * exists v. rewrite E8, E1, E2, E7, F2. cbn. split; auto. split; auto. split; [lia|].
         split; [split; cbn; rewrite F2; [lia | intros t Ht; apply Hv_tab in Ht; specialize (Hlt2 t _ Ht); lia]|].
         split; [intros t Ht; apply Hv_tab in Ht; specialize (Hlt2 t _ Ht); lia|].
-        intros _. split; auto. split; auto. split; auto.
-        intros t c Hc. specialize (Hlt2 t c Hc). lia.
+        intros _. split; auto. split; auto. split; auto. split.
+        { intros t c Hc. specialize (Hlt2 t c Hc). lia. }
+        destruct E20 as [E20|E20]; rewrite E20; [apply fadd_In; left; auto|].
+        apply fdel_In. split; [apply fadd_In; left; auto|]. intros E. inversion E. unfold m in *. lia.
     + reflexivity.
     + exists v. rewrite E8. split; auto; cbn; rewrite F14; auto.
     + rewrite E2. intros t Hc. destruct (Hnew t Hcl _ Hc) as [E _]. discriminate.
     + rewrite E1, F2. unfold m. lia.
     + rewrite E9, F8. auto.
     + rewrite E2. intros t c Hc. apply (Hnew t Hcl c Hc).
+    + intros m0. destruct E20 as [E20|E20]; rewrite E20; rewrite ?fdel_In, fadd_In, F1.
+      * split; [intros [E|Hin]; [discriminate | auto] | auto].
+      * split; [intros [[E|Hin] _]; [discriminate | auto] | intros Hin; split; [auto | discriminate]].
 Qed.
 
 Lemma needed_do_rm : forall f ok why s g, needed (fst (do_rm f ok why s)) g = needed s g.
@@ -236,6 +253,23 @@ Proof.
       { intros g Hg. rewrite Hnd. apply Hn. right; auto. }
       split; [auto|]. rewrite I1, I2, I3, I4, I5, I6, I7. repeat split; auto.
     + cbn. split; [auto | repeat split; auto].
+Qed.
+
+Lemma do_rm_seq_files : forall rem bad s, NoDup rem -> incl rem (files s) ->
+  snd (do_rm_seq rem bad s) = true ->
+  forall f, In f (files (fst (do_rm_seq rem bad s))) <-> In f (files s) /\ ~ In f rem.
+Proof.
+  induction rem as [|g rem IH]; intros bad s Hnd Hin Hok f; cbn [do_rm_seq] in *.
+  - cbn. tauto.
+  - inversion Hnd as [|x l Hnot Hnd']; subst.
+    assert (Hg : fmem (files s) g = true) by (apply fmem_In; apply Hin; left; auto).
+    unfold do_rm in *. rewrite Hg in *.
+    destruct (negb (fmem bad g)) eqn:Eb; cbn [fst snd] in *; [|discriminate].
+    set (s1 := set_residue (filter (fun x => negb (fd_eqb g (fst x))) (residue (set_trace ((g, needed s g) :: trace s) s)))
+                 (set_files (fdel (files (set_trace ((g, needed s g) :: trace s) s)) g) (set_trace ((g, needed s g) :: trace s) s))) in *.
+    assert (Hin1 : incl rem (files s1)).
+    { intros h Hh. subst s1. cbn. apply fdel_In. split; [apply Hin; right; auto|]. intro; subst; auto. }
+    rewrite (IH bad s1 Hnd' Hin1 Hok f). subst s1. cbn. rewrite fdel_In. cbn. intuition congruence.
 Qed.
 
 Lemma tget_const_map : forall l t c, tget (map (fun t => (t, CTab)) l) t = Some c -> c = CTab /\ In t l.
@@ -271,10 +305,11 @@ Lemma rj_loop_InvO : forall sel fl ofd bad s, InvO s -> nsorted sel -> NoDup sel
   InvO (fst (fst (rj_loop sel fl ofd bad s))) /\
   next s <= next (fst (fst (rj_loop sel fl ofd bad s))) /\
   journal (fst (fst (rj_loop sel fl ofd bad s))) = journal s /\
-  (forall o, snd (rj_loop sel fl ofd bad s) = Some o -> o < next (fst (fst (rj_loop sel fl ofd bad s)))).
+  (forall o, snd (rj_loop sel fl ofd bad s) = Some o -> o < next (fst (fst (rj_loop sel fl ofd bad s)))) /\
+  (forall m, In (FJournal, m) (files (fst (fst (rj_loop sel fl ofd bad s)))) -> In (FJournal, m) (files s)).
 Proof.
   induction sel as [|j sel IH]; intros fl ofd bad s H Hs Hnd Hlt Hofd.
-  - cbn. split; auto. split; [lia|]. split; auto. intros o Ho. destruct (Hofd o Ho); auto.
+  - cbn. split; auto. split; [lia|]. split; auto. split; auto. intros o Ho. destruct (Hofd o Ho); auto.
   - cbn [rj_loop].
     assert (Hs' : nsorted sel) by (unfold nsorted in *; inversion Hs; auto).
     assert (Hnd' : NoDup sel) by (inversion Hnd; auto).
@@ -287,21 +322,23 @@ Proof.
                                                (negb (fmem bad (FManifest, match man s with Some m => m | None => 0 end))) s in
                              do_rm (FJournal, o) (negb (fmem bad (FJournal, o))) RFailed s'
                          end ->
-              InvO s1 /\ next s <= next s1 /\ journal s1 = journal s).
+              InvO s1 /\ next s <= next s1 /\ journal s1 = journal s /\
+              (forall m, In (FJournal, m) (files s1) -> In (FJournal, m) (files s))).
     { intros s1 ok E. destruct ofd as [o|].
       - destruct (Hofd o eq_refl) as [Ho1 Ho2].
         pose proof (commit_open j (negb (fmem bad (FManifest, match man s with Some m => m | None => 0 end))) s H) as Hc.
         destruct (commit (Some KFlush) [] (Some j) false COk (negb (fmem bad (FManifest, match man s with Some m => m | None => 0 end))) s) as [s' x].
-        cbn [fst] in Hc. destruct Hc as (C1&C2&[v [Ev Ej]]&C4&C5&C6&_).
+        cbn [fst] in Hc. destruct Hc as (C1&C2&[v [Ev Ej]]&C4&C5&C6&_&C8).
         assert (Hn : needed s' (FJournal, o) = false \/ (FJournal, o) = (FJournal, 0)).
         { destruct (N.eqb_spec o 0) as [->|Hz]; auto. left. apply needed_journal_old; auto.
           - intros v0 Hv0. rewrite Ev in Hv0. destruct Hv0 as [ <- |[]].
             destruct (o_v s' C1) as [v1 (Ev1&_&_&_&_&Hh)]. rewrite Ev in Ev1. inversion Ev1; subst. apply (Hh C2).
           - intros v0 Hv0. rewrite Ev in Hv0. destruct Hv0 as [ <- |[]]. rewrite Ej. apply Ho2. left; auto. }
         pose proof (do_rm_InvO (FJournal, o) (negb (fmem bad (FJournal, o))) RFailed s' C1 Hn) as H1.
-        destruct (do_rm_eq (FJournal, o) (negb (fmem bad (FJournal, o))) RFailed s') as (E1&E2&E3&E4&E5&E6&E7&E8&E9&_).
+        destruct (do_rm_eq (FJournal, o) (negb (fmem bad (FJournal, o))) RFailed s') as (E1&E2&E3&E4&E5&E6&E7&E8&E9&E10&E11&E12&E13&E14&E15&E16&E17&E18&E19&E20).
         destruct (do_rm (FJournal, o) (negb (fmem bad (FJournal, o))) RFailed s') as [s1' ok']. inversion E; subst.
-        cbn [fst] in *. split; auto. rewrite E1, E9. split; auto.
+        cbn [fst] in *. split; auto. rewrite E1, E9. split; auto. split; auto.
+        intros m Hm. apply C8. destruct E20 as [E20|E20]; rewrite E20 in Hm; auto. apply fdel_In in Hm. tauto.
       - inversion E; subst. split; auto. split; [lia | auto]. }
     destruct (match ofd with
               | None => (s, true)
@@ -310,15 +347,16 @@ Proof.
                                     (negb (fmem bad (FManifest, match man s with Some m => m | None => 0 end))) s in
                   do_rm (FJournal, o) (negb (fmem bad (FJournal, o))) RFailed s'
               end) as [s1 ok] eqn:Est.
-    destruct (Hstage s1 ok eq_refl) as (H1&Hn1&Hj1).
+    destruct (Hstage s1 ok eq_refl) as (H1&Hn1&Hj1&Hf1).
     destruct ok.
-    + destruct (rj_flush_InvO (N.to_nat (hd 0 fl)) s1 H1) as (G1&G2&G3&G4&G5&G6).
+    + destruct (rj_flush_InvO (N.to_nat (hd 0 fl)) s1 H1) as (G1&G2&G3&G4&G5&G6&G7).
       set (s2 := rj_flush (N.to_nat (hd 0 fl)) s1) in *.
-      destruct (IH (tl fl) (Some j) bad s2 G1 Hs' Hnd') as (I1&I2&I3&I4).
+      destruct (IH (tl fl) (Some j) bad s2 G1 Hs' Hnd') as (I1&I2&I3&I4&I5).
       * intros j' Hj'. assert (j' < next s) by (apply Hlt; right; auto). lia.
       * intros o Ho. inversion Ho; subst. split; auto. assert (o < next s) by (apply Hlt; left; auto). lia.
-      * split; auto. split; [lia|]. split; [congruence | auto].
-    + cbn [fst snd]. split; auto. split; auto. split; auto.
+      * split; auto. split; [lia|]. split; [congruence |]. split; auto.
+        intros m Hm. apply Hf1. apply G7. apply I5. auto.
+    + cbn [fst snd]. split; auto. split; auto. split; auto. split; auto.
       intros o Ho. destruct (Hofd o Ho). lia.
 Qed.
 
@@ -337,7 +375,7 @@ Proof.
   unfold janitor in Hjan. destruct (Nat.eqb _ _); [|discriminate]. inversion Hjan; subst; clear Hjan.
   apply filter_In in Hf. destruct Hf as [Hin Hk]. apply negb_true_iff in Hk.
   destruct (o_v s H) as [v1 (Ev1&Em1&_&_&_&Hh)]. rewrite Ev in Ev1. inversion Ev1; subst v1.
-  destruct (Hh Hm) as (P1&P2&P3&P4).
+  destruct (Hh Hm) as (P1&P2&P3&P4&P5).
   destruct f as [[] n]; unfold jkeep, jstate_of in Hk; cbn in Hk.
   - left. unfold needed. cbn. rewrite Ev. cbn. rewrite orb_false_r. rewrite Em1 in Hk. rewrite N.eqb_sym. auto.
   - rewrite (o_fz s H) in Hk. apply N.leb_gt in Hk.
@@ -353,7 +391,17 @@ Proof.
   - left. reflexivity.
 Qed.
 
-Theorem open_db_Good : forall v fl bad s, InvC s -> In v (views s) -> Good (open_db v fl bad s).
+(* Open from any closed state: the invariant of the result, and if Open succeeds the listing is exact: every
+   file of the exact set is there, and every file there belongs to the exact set or is a journal numbered
+   above the new one (which cannot exist when the manifest's journal number is not above its next file
+   number) *)
+Theorem open_db_spec : forall v fl bad s, InvC s -> In v (views s) ->
+  Good (open_db v fl bad s) /\
+  (opened (open_db v fl bad s) = true ->
+     (forall f, In f (exact_set (open_db v fl bad s)) -> In f (files (open_db v fl bad s))) /\
+     (forall f, In f (files (open_db v fl bad s)) ->
+        In f (exact_set (open_db v fl bad s)) \/
+        exists n, f = (FJournal, n) /\ journal (open_db v fl bad s) < n /\ v_next v < v_jnum v)).
 Proof.
   intros v fl bad s H Hv.
   destruct (c_v s H v Hv) as [Wm Wt].
@@ -380,27 +428,33 @@ Proof.
     - apply bump_next_InvO; auto. lia.
     - intros j Hj. apply (nsorted_le_last _ Hsorted) in Hj. cbn [next set_next]. lia. }
   destruct H1 as [H1 Hsel1].
-  destruct (rj_loop_InvO sel fl None bad s1 H1 Hsorted Hnodup Hsel1) as (L1&L2&L3&L4); [intros o Ho; discriminate|].
+  destruct (rj_loop_InvO sel fl None bad s1 H1 Hsorted Hnodup Hsel1) as (L1&L2&L3&L4&L5); [intros o Ho; discriminate|].
   destruct (rj_loop sel fl None bad s1) as [[s2 ok] ofd]. cbn [fst snd] in *.
-  destruct ok; cbn [negb]; [|unfold Good; rewrite (o_op s2 L1); apply InvO_InvC; auto].
+  destruct ok; cbn [negb]; [|split; [unfold Good; rewrite (o_op s2 L1); apply InvO_InvC; auto | rewrite (o_op s2 L1); discriminate]].
   set (j := next s2).
   set (s3 := set_journal j (set_files (fadd (files s2) (FJournal, j)) (set_next (j + 1) s2))).
   assert (H3 : InvO s3).
   { assert (Hb : InvO (set_next (j + 1) s2)) by (apply bump_next_InvO; auto; unfold j; lia).
-    constructor; cbn; try apply Hb. apply fadd_NoDup, (o_fl s2 L1). }
+    constructor; cbn; try apply Hb; [apply fadd_NoDup, (o_fl s2 L1)|].
+    destruct (o_v _ Hb) as [v' (Ev'&Em'&Lm'&W'&Lt'&Hh')]. cbn in *. exists v'.
+    split; auto. split; auto. split; auto. split; auto. split; auto.
+    intros Hm. destruct (Hh' Hm) as (P1&P2&P3&P4&P5). split; auto. split; auto. split; auto. split; auto.
+    apply fadd_In. right. auto. }
   assert (Hlt3 : forall t c, tget (tb s3) t = Some c -> t < j) by (intros t c Hc; apply (o_cls s2 L1 t c Hc)).
   pose proof (commit_open j (negb (fmem bad (FManifest, match man s3 with Some m => m | None => 0 end))) s3 H3) as Hc.
   destruct (commit (Some KFlush) [] (Some j) false COk (negb (fmem bad (FManifest, match man s3 with Some m => m | None => 0 end))) s3) as [s4 x].
-  cbn [fst] in Hc. destruct Hc as (C1&C2&[v4 [Ev4 Ej4]]&C4&C5&C6&C7).
+  cbn [fst] in Hc. destruct Hc as (C1&C2&[v4 [Ev4 Ej4]]&C4&C5&C6&C7&C8).
   assert (Hj4 : journal s4 = j) by (rewrite C6; reflexivity).
   assert (Hn4 : j + 1 <= next s4) by (cbn in C5; lia).
+  assert (Hj4file : In (FJournal, j) (files s4)) by (apply C8; subst s3; cbn; apply fadd_In; left; auto).
   assert (Hstage : forall s5 ok5,
             (s5, ok5) = match ofd with
                         | Some o => do_rm (FJournal, o) (negb (fmem bad (FJournal, o))) RFailed s4
                         | None => (s4, true)
                         end ->
             InvO s5 /\ tb s5 = tb s4 /\ views s5 = views s4 /\ journal s5 = j /\ next s5 = next s4 /\
-            hasman s5 = true /\ man s5 = man s4 /\ sjnum s5 = sjnum s4).
+            hasman s5 = true /\ man s5 = man s4 /\ sjnum s5 = sjnum s4 /\
+            In (FJournal, j) (files s5) /\ (forall n, In (FJournal, n) (files s5) -> In (FJournal, n) (files s4))).
   { intros s5 ok5 E. destruct ofd as [o|].
     - assert (Ho : o < j) by (apply L4; auto).
       assert (Hn : needed s4 (FJournal, o) = false \/ (FJournal, o) = (FJournal, 0)).
@@ -409,34 +463,49 @@ Proof.
           destruct (o_v s4 C1) as [v1 (Ev1&_&_&_&_&Hh)]. rewrite Ev4 in Ev1. inversion Ev1; subst. apply (Hh C2).
         - intros v0 Hv0. rewrite Ev4 in Hv0. destruct Hv0 as [ <- |[]]. rewrite Ej4. auto. }
       pose proof (do_rm_InvO (FJournal, o) (negb (fmem bad (FJournal, o))) RFailed s4 C1 Hn) as H5.
-      destruct (do_rm_eq (FJournal, o) (negb (fmem bad (FJournal, o))) RFailed s4) as (E1&E2&E3&E4&E5&E6&E7&E8&E9&_).
+      destruct (do_rm_eq (FJournal, o) (negb (fmem bad (FJournal, o))) RFailed s4) as (E1&E2&E3&E4&E5&E6&E7&E8&E9&E10&E11&E12&E13&E14&E15&E16&E17&E18&E19&E20).
       destruct (do_rm (FJournal, o) (negb (fmem bad (FJournal, o))) RFailed s4) as [s5' ok5']. inversion E; subst.
-      cbn [fst] in *. split; auto. rewrite E2, E8, E9, E1, E5, E4, E7. repeat split; auto.
+      cbn [fst] in *. split; auto. rewrite E2, E8, E9, E1, E5, E4, E7.
+      split; auto. split; auto. split; auto. split; auto. split; auto. split; auto. split; auto. split.
+      + destruct E20 as [E20|E20]; rewrite E20; auto. apply fdel_In. split; auto. intros Ef. inversion Ef. lia.
+      + intros n Hn'. destruct E20 as [E20|E20]; rewrite E20 in Hn'; auto. apply fdel_In in Hn'. tauto.
     - inversion E; subst. split; auto. repeat split; auto. }
   destruct (match ofd with
             | Some o => do_rm (FJournal, o) (negb (fmem bad (FJournal, o))) RFailed s4
             | None => (s4, true)
             end) as [s5 ok5] eqn:Est.
-  destruct (Hstage s5 ok5 eq_refl) as (H5&T1&T2&T3&T4&T5&T6&T7).
-  destruct ok5; cbn [negb]; [|unfold Good; rewrite (o_op s5 H5); apply InvO_InvC; auto].
+  destruct (Hstage s5 ok5 eq_refl) as (H5&T1&T2&T3&T4&T5&T6&T7&T8&T9).
+  destruct ok5; cbn [negb]; [|split; [unfold Good; rewrite (o_op s5 H5); apply InvO_InvC; auto | rewrite (o_op s5 H5); discriminate]].
   destruct (janitor (jstate_of s5) (files s5)) as [ts|rem] eqn:Ejan;
-    [unfold Good; rewrite (o_op s5 H5); apply InvO_InvC; auto|].
+    [split; [unfold Good; rewrite (o_op s5 H5); apply InvO_InvC; auto | rewrite (o_op s5 H5); discriminate]|].
   assert (Hviews5 : exists v, views s5 = [v] /\ v_jnum v = journal s5).
   { exists v4. rewrite T2, T3. auto. }
   pose proof (janitor_rem_unneeded s5 rem H5 T5 Hviews5 Ejan) as Hun.
   destruct (do_rm_seq_InvO rem bad s5 H5 Hun) as (H6&U1&U2&U3&U4&U5&U6&U7).
-  destruct (do_rm_seq rem bad s5) as [s6 ok6]. cbn [fst] in *.
-  destruct ok6; cbn [negb]; [|unfold Good; rewrite (o_op s6 H6); apply InvO_InvC; auto].
-  unfold Good. cbn [opened set_opened].
+  assert (Hrem : rem = filter (fun f => negb (jkeep (jstate_of s5) f)) (files s5) /\
+                 forall t, In t (tabs_of (tb s5)) -> In (FTable, t) (files s5)).
+  { pose proof (janitor_spec (jstate_of s5) (files s5) (o_fl s5 H5)) as Hsp. rewrite Ejan in Hsp.
+    destruct Hsp as (Sp1&Sp2&_). split; auto. }
+  destruct Hrem as [Hrem Htabs5].
+  assert (Hfiles6 : snd (do_rm_seq rem bad s5) = true ->
+            forall f, In f (files (fst (do_rm_seq rem bad s5))) <-> In f (files s5) /\ ~ In f rem).
+  { apply do_rm_seq_files.
+    - rewrite Hrem. apply NoDup_filter, (o_fl s5 H5).
+    - rewrite Hrem. intros f Hf. apply filter_In in Hf. tauto. }
+  destruct (do_rm_seq rem bad s5) as [s6 ok6]. cbn [fst snd] in *.
+  destruct ok6; cbn [negb]; [|split; [unfold Good; rewrite (o_op s6 H6); apply InvO_InvC; auto | rewrite (o_op s6 H6); discriminate]].
+  specialize (Hfiles6 eq_refl).
   destruct (o_v s6 H6) as [v6 (Ev6&Em6&Lm6&W6&Lt6&Hh6)].
-  rewrite U6, T5 in Hh6. destruct (Hh6 eq_refl) as (P1&P2&P3&P4).
+  rewrite U6, T5 in Hh6. destruct (Hh6 eq_refl) as (P1&P2&P3&P4&P5).
   assert (Ev64 : v6 = v4) by (rewrite U2, T2, Ev4 in Ev6; inversion Ev6; auto). subst v6.
   destruct (o_jobs s6 H6) as (J1&J2&J3).
   assert (Hcls6 : forall t c, tget (tb s6) t = Some c -> c = CTab /\ t < j).
   { intros t c Hc. rewrite U1, T1 in Hc. split.
     - destruct (o_cls s4 C1 t c Hc) as [[->| ->] _]; auto. exfalso. apply (C4 t); auto.
     - destruct (C7 t c Hc) as [c0 Hc0]. apply (Hlt3 t c0 Hc0). }
-  constructor; cbn.
+  assert (Hkeep6 : forall f, In f (files s6) <-> In f (files s5) /\ jkeep (jstate_of s5) f = true).
+  { intros f. rewrite Hfiles6, Hrem, filter_In, negb_true_iff. destruct (jkeep (jstate_of s5) f); intuition congruence. }
+  split; [unfold Good; cbn [opened set_opened]; constructor; cbn|].
   - apply (o_fl s6 H6).
   - apply (o_k s6 H6).
   - rewrite U4, T4, U3, T3, (o_fz s6 H6), (o_pins s6 H6). split; [|split; [|split; [|split]]].
@@ -458,7 +527,44 @@ Proof.
   - rewrite Ev6. intros v0 [ <- |[]]. split; auto.
   - apply (o_t s6 H6).
   - reflexivity.
+  - intros _. unfold exact_set. cbn [tb journal man set_opened set_residue].
+    rewrite Em6, U3, T3, U1.
+    assert (Ejs : jstate_of s5 = {| js_tabs := tabs_of (tb s5); js_manifest := v_man v4; js_journal := j; js_frozen := None |}).
+    { unfold jstate_of. rewrite <- U5, Em6, T3, (o_fz s5 H5). reflexivity. }
+    split.
+    + intros f Hf. apply in_app_or in Hf. destruct Hf as [Hf|Hf].
+      * apply in_map_iff in Hf. destruct Hf as [t [ <- Ht]]. apply Hkeep6. split; [apply Htabs5; auto|].
+        rewrite Ejs. cbn. apply nmem_In. auto.
+      * destruct Hf as [ <- |[ <- |[]]].
+        -- apply Hkeep6. split; auto. rewrite Ejs. cbn. apply N.leb_le. lia.
+        -- auto.
+    + intros f Hf. apply Hkeep6 in Hf. destruct Hf as [Hf5 Hk]. rewrite Ejs in Hk.
+      destruct f as [[] n]; cbn in Hk.
+      * apply N.eqb_eq in Hk. subst n. left. apply in_or_app. right. right. left. auto.
+      * apply N.leb_le in Hk. destruct (N.eqb_spec n j) as [->|Hne].
+        -- left. apply in_or_app. right. left. auto.
+        -- right. exists n. split; auto. split; [lia|].
+           assert (Hn2 : In (FJournal, n) (files s2)).
+           { apply T9 in Hf5. apply C8 in Hf5. subst s3. cbn in Hf5. apply fadd_In in Hf5.
+             destruct Hf5 as [E|]; auto. inversion E. congruence. }
+           apply L5 in Hn2.
+           assert (Hfs1 : files s1 = files s).
+           { subst s1. destruct sel; reflexivity. }
+           rewrite Hfs1 in Hn2.
+           destruct (jsel (v_jnum v) (pjn v) n) eqn:Esel.
+           ++ assert (Hin : In n sel).
+              { destruct (rj_select_spec (v_jnum v) (pjn v) (files s) (c_fl s H)) as (Sp&_&_). apply Sp. auto. }
+              specialize (Hsel1 n Hin). unfold j in *. lia.
+           ++ unfold jsel in Esel. apply orb_false_iff in Esel. destruct Esel as [Esel _]. apply N.leb_gt in Esel.
+              assert (Hn0 : v_next v <= next s1).
+              { subst s1. destruct sel; [cbn; lia|]. unfold mark_num. cbn. lia. }
+              unfold j in *. lia.
+      * apply nmem_In in Hk. left. apply in_or_app. left. apply in_map_iff. exists n. auto.
+      * discriminate.
 Qed.
+
+Theorem open_db_Good : forall v fl bad s, InvC s -> In v (views s) -> Good (open_db v fl bad s).
+Proof. intros. apply open_db_spec; auto. Qed.
 
 (* ---------- every step keeps the invariant; never_remove_needed ---------- *)
 
